@@ -50,4 +50,21 @@ theorem pk_put_is_last : Generated.C20.addMinerPkPutLast = true := by decide
 /-- `AddStake` updates `miner.Stake` before the re-activation test reads it (`addStakeApply` decides on the new stake). -/
 theorem addStake_decides_on_new_stake : Generated.C20.addStakeUpdatesStakeBeforeStatusTest = true := by decide
 
+/-- Shared mutable state: on the miner path only the two service constructors assign package-level variables
+    (no scratch buffers, caches or singletons are written while transactions execute). -/
+theorem no_package_state_written_on_path :
+    Generated.C20.packageLevelWrites =
+      ["miner_manager.go:InitMinerManager:MinerManagerImpl", "refund_manager.go:InitRefundManager:RefundManagerImpl"] := by
+  decide
+
+/-- Fork configuration: exactly these proposal / network flags are read on the miner path. The model fixes each of
+    them to its value beyond the last proposal of the network (dev: height ≥ 12; mainnet: height ≥ 69329000; robin:
+    height ≥ 84150000; `IsMainnet` is an input of the driver; `IsSub` false; heights ≠ Proposal004/010/011/019Block).
+    A new flag read on the path breaks this theorem. -/
+theorem fork_flags_on_path :
+    Generated.C20.forkFlagsOnPath = ["IsMainnet", "IsProposal003", "IsProposal004", "IsProposal006", "IsProposal007",
+      "IsProposal012", "IsProposal013", "IsProposal015", "IsProposal018", "IsProposal021", "IsProposal026", "IsProposal027",
+      "IsSub", "LocalChainConfig.Proposal004Block", "LocalChainConfig.Proposal010Block", "LocalChainConfig.Proposal011Block",
+      "LocalChainConfig.Proposal019Block"] := by decide
+
 end Rangers.Props.C20Facts
